@@ -2,7 +2,11 @@
 
 package font
 
-import "github.com/go-text/typesetting/font/opentype/tables"
+import (
+	"errors"
+
+	"github.com/go-text/typesetting/font/opentype/tables"
+)
 
 // shared between GSUB and GPOS
 type Layout struct {
@@ -206,6 +210,13 @@ func newGSUB(table tables.Layout) (GSUB, error) {
 			}
 			if err != nil {
 				return GSUB{}, err
+			}
+
+			// the direction in which a lookup is applied is chosen from its first subtable:
+			// all the subtables (of an extension lookup) must agree on it
+			_, isReverse := subtables[j].(tables.ReverseChainSingleSubs)
+			if _, firstIsReverse := subtables[0].(tables.ReverseChainSingleSubs); isReverse != firstIsReverse {
+				return GSUB{}, errors.New("invalid GSUB lookup: mixed reverse and forward subtables")
 			}
 		}
 		out.Lookups[i] = GSUBLookup{
